@@ -21,6 +21,8 @@ import (
 	"github.com/gotid/god/rpc/internal/mock"
 	"google.golang.org/grpc"
 	"google.golang.org/grpc/credentials/insecure"
+	"google.golang.org/grpc/resolver"
+	"google.golang.org/grpc/resolver/manual"
 )
 
 // verifBackends are in-process grpc servers on loopback ports; every served call is counted per server.
@@ -67,6 +69,26 @@ type verifCliCase struct {
 	Backends int           `json:"backends"`
 	Opts     []verifCliOpt `json:"opts"`
 	Calls    int           `json:"calls"`
+	Target   string        `json:"target"` // "" / "direct": direct:///a,b[,c]; "manual": comma-less target of a manual resolver
+}
+
+// verifManual: one manual resolver per backend count, registered once; the comma-less target
+// verifm<n>:///backends resolves to the first n backends (what a discov/etcd style resolver does).
+var verifManual = map[int]*manual.Resolver{}
+
+func verifManualTarget(n int) string {
+	scheme := "verifm" + strconv.Itoa(n)
+	if _, ok := verifManual[n]; !ok {
+		r := manual.NewBuilderWithScheme(scheme)
+		addrs := make([]resolver.Address, 0, n)
+		for _, a := range verifBk.addrs[:n] {
+			addrs = append(addrs, resolver.Address{Addr: a})
+		}
+		r.InitialState(resolver.State{Addresses: addrs})
+		resolver.Register(r)
+		verifManual[n] = r
+	}
+	return scheme + ":///backends"
 }
 
 // verifOptions builds the ClientOptions of a case; user dial options are remembered by identity.
@@ -141,6 +163,9 @@ func TestVerifDriver(t *testing.T) {
 		}
 		hits = 0
 		target := "direct:///" + strings.Join(verifBk.addrs[:c.Backends], ",")
+		if c.Target == "manual" {
+			target = verifManualTarget(c.Backends)
+		}
 		cli, err := NewClient(target, verifOptions(c, map[grpc.DialOption]string{}, &hits)...)
 		if err != nil {
 			return map[string]any{"labels": labels, "dial_err": err.Error()}
